@@ -63,3 +63,60 @@ def semantic_agree(impl, model, aux):
 
 def exact_agree(impl, model):
     return impl == model
+
+
+def judge_semantic(pid, st, V, relation="canon(impl result) = canon(model result)", min_result_nodes=3):
+    """generic judge for Bdd-valued operations under the semantic relation"""
+    from props import oracle
+    cid, call, impl, model, aux = st
+    V.evaluations += 1
+    V.count("op:" + call[0])
+    if impl == "SKIP" or not operands_wf(call):
+        V.skipped += 1
+        return
+    machinery_guard(st)
+    for x in call[1:]:
+        if is_bdd(x):
+            V.count("nv:%d" % bdd_nodes(x)[0][0])
+            V.count("size:%s" % ("1-2" if len(bdd_nodes(x)) < 3 else "3-6" if len(bdd_nodes(x)) < 7 else "7-20" if len(bdd_nodes(x)) < 21 else "21+"))
+            break
+    V.count("outcome:" + (impl if isinstance(impl, str) else impl[0]))
+    sample(V, st)
+    if not semantic_agree(impl, model, aux):
+        confirmed, desc = oracle.check(call, impl)
+        V.violations.append(violation(pid, st, "implementation and model disagree: " + relation, oracle=desc, confirmed=confirmed, relation=relation))
+        return
+    rb = unwrap_bdd(impl)
+    bdds = [bdd_nodes(x) for x in call[1:] if is_bdd(x)]
+    if rb is not None and all(len(b) >= 3 for b in bdds) and len(bdd_nodes(rb)) >= min_result_nodes:
+        V.nontrivial.add(key_of(call))
+
+
+class Prog:
+    """collects single-step programs"""
+    def __init__(self):
+        self.progs = []
+        self.n = 0
+
+    def add(self, case):
+        self.n += 1
+        self.progs.append([[str(self.n)] + case])
+
+    def add_prog(self, cases):
+        self.progs.append(cases)
+
+
+def rand_operand(rng, nv, noncanon=0.2, max_support=None):
+    b = random_bdd(rng, nv, max_support=max_support)
+    if rng.random() < noncanon:
+        b = noncanonical_variant(rng, b)
+    return b
+
+
+def rand_optvar(rng, nv, pnone=0.4):
+    if nv == 0 or rng.random() < pnone:
+        return None
+    return rng.randrange(nv)
+
+
+CONNS = list(itertools.product([False, True], repeat=4))
